@@ -862,6 +862,13 @@ func (ex *Exec) havocModifies(spec *FuncSpec, ev *Eval, pre, post *State, callee
 		ex.set(post, "LOGN", "Int", ex.vc.fresh("hv_LOGN", "Int"))
 		ex.set(post, "LOGF", "(Array Int Int)", ex.vc.fresh("hv_LOGF", "(Array Int Int)"))
 	}
+	// the ghost clock may advance during any call
+	if _, used := ex.vc.compSort["CLK"]; used || mentions(spec.specText(), "now") {
+		clk := ex.get(pre, "CLK", "Int")
+		nclk := ex.vc.fresh("clk_after_"+sanitize(callee.Name()), "Int")
+		ex.vc.assume("(>= " + nclk + " " + clk + ")")
+		ex.set(post, "CLK", "Int", nclk)
+	}
 	// allocation may always grow in a callee (fresh results)
 	_ = allocHavoc
 	al := ex.allocComp(pre)
